@@ -81,7 +81,7 @@ def shards(tier, seed):
     if q:
         ret += nest[:7]
         # (2,3) k=3 states at the non-bosonic k'=3 test make the first-order feasibility solver run 30-50 s per call
-        ret.append({'name': 'pureb-c', 'cfg': [[2, 3, 3]], 'nstate': 1, 'cpu_budget_s': B})
+        ret.append({'name': 'pureb-c', 'cfg': [[2, 3, 3]], 'nstate': 1, 'feed_lbfgs': False, 'cpu_budget_s': B})
         ret.append({'name': 'cha', 'ncha': 10, 'nmodel': 2, 'kmax22': 3, 'cpu_budget_s': B})
         ret += nest[7:]
         ret.append({'name': 'pureb-a', 'cfg': [[3, 3, 2], [2, 4, 2], [2, 2, 4], [2, 2, 2], [2, 3, 2]], 'nstate': 2, 'cpu_budget_s': B})
@@ -123,6 +123,7 @@ class Mon:
         self.depth = 0           # >0 while inside get_ppt_boundary (its inner DM-boundary calls are not logged)
         self.margin = {}         # smallest |margin| seen at a threshold probe, by kind
         self.excess = {}         # ordering key -> worst (largest) b_inner - b_outer
+        self.excess_flagged = {}  # same, for comparisons where the solver flagged one of the two solves as inaccurate
         self.separated = {}      # ordering key -> number of comparisons with a strict gap > 1e-3
         self.compared = {}       # ordering key -> number of comparisons
         self.last_cha_state = None
@@ -435,7 +436,6 @@ def install(ctx, numqi, mon):
         if len(res) != len(items):
             ctx.check(False, 'is_symext/batch-shape', 'is_ABk_symmetric_ext must return one answer per state', {'n': len(items), 'out': len(res)})
             return
-        f = ctx.orig(E.symext.is_ABk_symmetric_ext)
         for item, r in zip(items, res):
             accepted = bool(r[0]) if return_info else bool(r)
             lab = mon.labels.get(content_digest(item))
@@ -691,8 +691,9 @@ def check_nesting(ctx, mon):
                 mon.compared[key] = mon.compared.get(key, 0) + 1
                 if -exc > 1e-3:
                     mon.separated[key] = mon.separated.get(key, 0) + 1
-                if key not in mon.excess or exc > mon.excess[key]:
-                    mon.excess[key] = exc
+                store = mon.excess_flagged if (e1['inacc'] or e2['inacc']) else mon.excess
+                if key not in store or exc > store[key]:
+                    store[key] = exc
                 if exc > slack and (e1['inacc'] or e2['inacc']):
                     ctx.inconclusive('nesting/solver-flagged-inaccurate')
                     ctx.hit('nesting/offline')
@@ -725,6 +726,7 @@ def check_nesting(ctx, mon):
                           point='nesting/offline')
     ctx.set_case(None)
     ctx.extra['nesting_worst_excess(inner-outer; <=slack required)'] = {k: float(v) for k, v in sorted(mon.excess.items())}
+    ctx.extra['nesting_worst_excess_when_solver_flagged_inaccurate'] = {k: float(v) for k, v in sorted(mon.excess_flagged.items())}
     ctx.extra['nesting_comparisons'] = dict(sorted(mon.compared.items()))
     ctx.extra['nesting_strictly_separated(>1e-3)'] = dict(sorted(mon.separated.items()))
     ctx.extra['log_events'] = len(mon.log)
@@ -836,13 +838,17 @@ class Driver:
             rec[0] += 1
             rec[1] = round(rec[1] + dt, 2)
             rec[2] = round(max(rec[2], dt), 2)
+            if dt > 10:
+                slow = self.ctx.extra.setdefault('slow_sdp_calls(>10s wall)', [])
+                if len(slow) < 6:
+                    slow.append({'call': tag, 'wall_s': round(dt, 1), 'case': self.ctx._case})
 
     def boundary(self, rho, dims, k, ppt, boson, **kw):
         return self._timed(f'boundary{tuple(dims)}k{k}ppt{int(ppt)}boson{int(boson)}',
                            lambda: self.E.get_ABk_symmetric_extension_boundary(rho, dims, k, use_ppt=ppt, use_boson=boson, **kw))
 
-    def is_ext(self, rho, dims, k, ppt, boson):
-        return self._timed(f'is_ext{tuple(dims)}k{k}ppt{int(ppt)}boson{int(boson)}',
+    def is_ext(self, rho, dims, k, ppt, boson, tag=''):
+        return self._timed(f'is_ext{tag}{tuple(dims)}k{k}ppt{int(ppt)}boson{int(boson)}',
                            lambda: self.E.is_ABk_symmetric_ext(rho, dims, k, use_ppt=ppt, use_boson=boson))
 
 
@@ -933,14 +939,14 @@ def run_nest(ctx, numqi, mon, shard):
                 b = drv.boundary(rho, dims, k, ppt, boson)
                 if b is not None and np.isfinite(b):
                     betas[(k, ppt, boson)] = float(b)
-            # relational: a state 1e-2 inside the reported k-ext boundary must be accepted, one 3e-2 outside rejected
-            # (1e-3 inside makes the first-order feasibility solver iterate for 10-90 s)
+            # relational: a state max(1e-2, 10%) inside the reported k-ext boundary must be accepted, one 3e-2 outside rejected
+            # (1e-3 inside, or 1e-2 inside next to a pure state, makes the first-order feasibility solver iterate for 10-90 s)
             if betas:
                 cfg = list(betas)[int(rng.integers(len(betas)))]
                 b = betas[cfg]
-                inner = E.hf_interpolate_dm(rho, beta=b - 1e-2) if b > 2e-2 else None
+                inner = E.hf_interpolate_dm(rho, beta=b - max(1e-2, 0.1 * b)) if b > 2e-2 else None
                 if inner is not None and R.min_eig(inner) > 1e-9:
-                    r = drv.is_ext(inner, dims, *cfg)
+                    r = drv.is_ext(inner, dims, *cfg, tag='-inner')
                     if r is not None and not bool(r):
                         verdict = mon.judge_rejection(inner, dims, cfg[0], cfg[1], cfg[2])
                         if verdict != 'rejected':
@@ -948,11 +954,11 @@ def run_nest(ctx, numqi, mon, shard):
                             r = None
                     if r is not None:
                         ctx.check(bool(r), 'symext/inside-own-boundary-rejected',
-                                  'the state 1e-2 inside the reported k-extension boundary is rejected by is_ABk_symmetric_ext (same options)',
+                                  'the state max(1e-2, 10%) inside the reported k-extension boundary is rejected by is_ABk_symmetric_ext (same options)',
                                   {'dims': dims, 'cfg': cfg, 'beta': b, 'direction': kind})
                 if b + 3e-2 < float(bu) - 1e-6:
                     outer = E.hf_interpolate_dm(rho, beta=b + 3e-2)
-                    r = drv.is_ext(outer, dims, *cfg)
+                    r = drv.is_ext(outer, dims, *cfg, tag='-outer')
                     if r is not None:
                         ctx.check(not bool(r), 'symext/outside-own-boundary-accepted',
                                   'the state 3e-2 outside the reported k-extension boundary is accepted by is_ABk_symmetric_ext (same options)',
@@ -1042,7 +1048,7 @@ def run_pureb(ctx, numqi, mon, shard):
             model.set_dm_target(R.herm(0.8 * rand_pure_entangled(rng, dA, dB) + 0.2 * np.eye(dA * dB) / (dA * dB)))
             numqi.optimize.minimize(model, theta0=rng.normal(size=npar), maxiter=5, tol=1e-14, print_every_round=0)
             dm = mon.last_state
-            if cpu_left(ctx) > 0:
+            if cpu_left(ctx) > 0 and shard.get('feed_lbfgs', True):
                 _drive_inner_state(ctx, drv, mon, dm, dims, 'pureb', k, [k], rng, with_ppt=False)
 
 
